@@ -137,7 +137,7 @@ def agrees (ci : ColumnInfo) (py : PyType) : Bool :=
 inductive Kind
   | query                 -- SELECT / WITH / VALUES / SHOW rewritten to a select / DESCRIBE TABLE: `_last_sql` is the query
   | statusSelect          -- DML, DDL, SET/UNSET, no-op'd, COMMIT/ROLLBACK outside a transaction, TRUNCATE, COMMENT: `_last_sql` = result_sql
-  | seededQuery           -- SELECT … RANDOM(seed) / SAMPLE … SEED: `_last_sql` = "SELECT setseed(..); <query>"
+  | seededQuery           -- SELECT … RANDOM(seed): `_last_sql` = "SELECT setseed(..); <query>" (SAMPLE … SEED stays a plain query)
   | txControl             -- BEGIN, COMMIT / ROLLBACK inside a transaction
   | use                   -- USE DATABASE / USE SCHEMA
   | rawCommand            -- SHOW DATABASES, EXPLAIN …: passed through, `DESCRIBE <text>` does not parse
